@@ -183,13 +183,13 @@ PROPERTIES["C04"] = dict(
                 "one path with independent orders and the insertion-ordered inferred map (whose Pairs sequence determines the gob bytes of the exported fact) / the exported nolint ranges must be "
                 "identical; scalar values stay symbolic and are decided by the solver.",
     bounds=dict(quick="K1: 2 suppressed statements with symbolic line ranges in a 5-line file, 4 comment spellings; K2: 2 annotated sites (fields / package variables, shallow+deep); K3: 2-3 controlled triggers under one controller; K4: two dependency facts from 1 constraint each over 4 sites",
-                thorough="K1: 2-3 statements; K2: 2-3 annotated sites; K3: 2-4 triggers; K4: <=2 constraints each"),
+                thorough="K1: 2 statements (3 did not finish in 40 minutes and is not registered); K2: 2-3 annotated sites; K3: 2-4 triggers; K4: <=2 constraints each"),
     outside=["goroutine scheduling and channel arrival order in function.run (C16's machinery)", "GOMAXPROCS", "the gob encoder itself",
              "map iteration inside AST-walking code (duplicateFullTriggersFromContractedFunctionsToCallers, affiliation, ...) - not yet encoded"],
     assumptions=COMMON_ASSUMPTIONS + ["a native run cannot choose map iteration order: counterexamples are confirmed natively by repeating the run (the two replays inside one run use the runtime's random orders)"],
     runs=[
         dict(pkg="diagnostic", files=["diagnostic/zz_verif_c11.go", "diagnostic/zz_verif_c14.go", "diagnostic/zz_verif_c04k1.go"], entry="Harness_C04_K1", map_order=True,
-             quick=dict(params=dict(STMTS=2)), thorough=dict(params=dict(STMTS=3)), args=dict(sample_every=499)),
+             quick=dict(params=dict(STMTS=2)), thorough=dict(params=dict(STMTS=2)), args=dict(sample_every=499)),
         dict(pkg="diagnostic", files=["diagnostic/zz_verif_c11.go", "diagnostic/zz_verif_c14.go", "diagnostic/zz_verif_c04k1.go"], entry="Harness_C04_K5",
              quick=dict(params=dict(N=2)), thorough=dict(params=dict(N=3)), args=dict(sample_every=29)),
         dict(pkg="inference", files=INFER_FILES, entry="Harness_C04_K2", map_order=True,
